@@ -17,7 +17,8 @@ def run(ctx):
                 "T: random histories recorded from the real containers and validated by TLC against the same actions. "
                 "distinct_nontrivial = distinct replayed paths with at least one mutating call")
     ctx.assumptions += ["element type int, distinct pushed values; Values() copied immediately",
-                        "nil-receiver calls only where documented"]
+                        "nil-receiver calls only where documented",
+                        "SortedSliceSet is also instantiated with float64 (NaN, -Inf, -0/+0, +Inf); Equal is not judged for sets containing NaN (NaN != NaN)"]
 
     # 1. exhaustive model checking of the design (refinement impl-shape -> abstract ring; set algebra).
     write_cfg(d / "RingMC_run.cfg", "Spec", {"Caps": "{0, 1, 2, 3, 4}", "MaxSteps": 12 if q else 16},
